@@ -198,10 +198,10 @@ class Scheduler:
 
     # -- used by the step clock ------------------------------------------------
     def on_line(self, frame):
-        if self.stopped or not self.live_others():
-            return
-        self.lines += 1
         if self.lines < self.next_at:
+            return
+        if self.stopped or not self.live_others():
+            self.next_at = self.lines + 50
             return
         me = self.me()
         if me is None or me.bypass or me.state != "running":
